@@ -246,7 +246,9 @@ def table : List (Site × Discharge) := [
   (⟨"game/agent/scripted_agents/probabilistic_agent.py", "ProbabilisticAgent.get_action", .rngMethod, "self.rng.choice(len(self.action_manager.action_map), p=self.probabilities)", 0⟩, .seededRng),
   (⟨"game/agent/scripted_agents/random_agent.py", "PeriodicAgent._set_next_execution_timestep", .pyRandom, "random.randint(-variance, variance)", 0⟩, .seededRng),
   (⟨"game/agent/scripted_agents/random_agent.py", "PeriodicAgent.start_node", .pyRandom, "random.choice(self.config.agent_settings.possible_start_nodes)", 0⟩, .seededRng),
-  (⟨"game/agent/scripted_agents/random_agent.py", "RandomAgent.get_action", .npRandom, "np.random.randint(0, 65535)", 0⟩, .seededRng),
+  (⟨"game/agent/scripted_agents/random_agent.py", "RandomAgent", .npRandom, "np.random.default_rng(np.random.randint(0, 65535))", 0⟩, .seededRng),
+  (⟨"game/agent/scripted_agents/random_agent.py", "RandomAgent", .npRandom, "np.random.randint(0, 65535)", 0⟩, .seededRng),
+  (⟨"game/agent/scripted_agents/random_agent.py", "RandomAgent.get_action", .rngMethod, "self.rng.integers(0, 65535)", 0⟩, .seededRng),
   (⟨"game/agent/scripted_agents/random_agent.py", "RandomAgent.get_action", .spaceSample, "space.sample()", 0⟩, .seededRng),
   (⟨"game/game.py", "PrimaiteGame.from_config._set_software_listen_on_ports", .setDecl, "software.listen_on_ports : set(listen_on_ports)", 0⟩, .setDeclCovered),
   (⟨"game/game.py", "PrimaiteGame.from_config._set_software_listen_on_ports", .setIter, "for <- set(software_cfg.get('options', {}).get('listen_on_ports', []))", 0⟩, .setToSet),
